@@ -63,7 +63,10 @@ func (e *establishLinkHandler) HandleValueAdded(inst directive.Instance, val dir
 			Debug("starting peer hold-open tracking")
 		go func() {
 			e.mtx.Lock()
-			e.rigidRef = e.di.AddReference(nil, false)
+			// re-check: another add may have acquired the ref, or all links may be gone again
+			if e.rigidRef == nil && e.valCount > 0 {
+				e.rigidRef = e.di.AddReference(nil, false)
+			}
 			e.mtx.Unlock()
 		}()
 	}
